@@ -35,18 +35,12 @@ Theorem C15_eq_implies_key_eq_refuted_partial_order :
                    /\ to_hashable true v = Ok k /\ to_hashable true w = Ok k' /\ py_eq k k' = false.
 Proof. exact eq_implies_key_eq_refuted_partial_order. Qed.
 Print Assumptions C15_eq_implies_key_eq_refuted_partial_order.
-Theorem C15_eq_implies_key_eq_refuted_counter :
-  exists v w k k', supported v = true /\ supported w = true /\ py_same v w = true
-                   /\ to_hashable true v = Ok k /\ to_hashable true w = Ok k' /\ py_eq k k' = false.
-Proof. exact eq_implies_key_eq_refuted_counter. Qed.
-Print Assumptions C15_eq_implies_key_eq_refuted_counter.
-
 (* proved when everything that gets sorted consists of scalars of one comparable class (numbers | str | bytes),
    no Counter holds a zero count, no pandas values.  py_same compares leaves with Python's == (1 == True == 1.0);
    py_eq is Python's == on the keys. *)
 Theorem C15_eq_implies_key_eq_partial : forall fp v w k k',
   wf v = true -> wf w = true -> homogeneous_sortable v = true -> homogeneous_sortable w = true ->
-  no_pandas v = true -> no_pandas w = true -> no_zero_count v = true -> no_zero_count w = true ->
+  no_pandas v = true -> no_pandas w = true ->
   py_same v w = true -> to_hashable fp v = Ok k -> to_hashable fp w = Ok k' -> py_eq k k' = true.
 Proof. exact eq_implies_key_eq. Qed.
 Print Assumptions C15_eq_implies_key_eq_partial.
@@ -55,8 +49,7 @@ Example C15_eq_implies_key_eq_nontrivial :   (* {1: [{'b', 'a'}], 2.5: ()} vs {2
   let v := PDict [(PInt 1, PList [PSet [PStr (s "b"); PStr (s "a")]]); (PFloat 10, PTuple [])] in
   let w := PDict [(PFloat 10, PTuple []); (PBool true, PList [PSet [PStr (s "a"); PStr (s "b")]])] in
   wf v = true /\ wf w = true /\ homogeneous_sortable v = true /\ homogeneous_sortable w = true
-  /\ no_pandas v = true /\ no_pandas w = true /\ no_zero_count v = true /\ no_zero_count w = true
-  /\ py_same v w = true /\ v <> w.
+  /\ no_pandas v = true /\ no_pandas w = true /\ py_same v w = true /\ v <> w.
 Proof. repeat split; try (vm_compute; reflexivity). discriminate. Qed.
 
 (* ---- total_on_supported: a key is returned.
